@@ -957,7 +957,21 @@ func TestC15(t *testing.T) {
 		}
 	}
 	if ops := replayOps(t); ops != nil {
-		run(append([]string{"reset"}, ops...))
+		var bbw *c20World
+		for _, op := range append([]string{"reset"}, ops...) {
+			if strings.HasPrefix(op, "bb ") {
+				if bbw == nil {
+					bbw = newC20World()
+				}
+				out := bbw.apply(r, strings.TrimPrefix(op, "bb "))
+				r.Op(op, out)
+				if out == "panic" {
+					r.Find(Finding{Sig: "C15:beginblock-panic-after-validation:rvesting", What: "rvesting BeginBlocker / parameter validation panics outside recovery", Ops: c15bb(bbw.hist), Obs: "panic", Req: "ok or ordinary error"})
+				}
+				continue
+			}
+			run([]string{op})
+		}
 		return
 	}
 	if r.Shard == 0 {
@@ -973,4 +987,35 @@ func TestC15(t *testing.T) {
 	for i := 0; i < n; i++ {
 		run(c15GenHistory(r, w))
 	}
+	// rvesting parameter validation + BeginBlocker run outside transaction recovery too: drive them through the
+	// C20 machinery (`bb <c20 op>` lines; the C15 Lean driver delegates them to the C20 model)
+	bw := newC20World()
+	runBB := func(h []string) {
+		for _, op := range h {
+			out := bw.apply(r, op)
+			r.Op("bb "+op, out)
+			if out == "panic" {
+				r.Find(Finding{Sig: "C15:beginblock-panic-after-validation:rvesting", What: "rvesting BeginBlocker / parameter validation panics outside recovery with validated parameters",
+					Ops: c15bb(bw.hist), Obs: "panic", Req: "ok or ordinary error"})
+			}
+		}
+	}
+	for _, h := range corpusOps("C20") {
+		runBB(append([]string{"reset"}, h...))
+	}
+	nb := 150
+	if r.Tier == "thorough" {
+		nb = 1500
+	}
+	for i := 0; i < nb; i++ {
+		runBB(c20GenHistory(r))
+	}
+}
+
+func c15bb(h []string) []string {
+	out := make([]string, 0, len(h))
+	for _, o := range h {
+		out = append(out, "bb "+o)
+	}
+	return out
 }
